@@ -378,6 +378,22 @@ vari_harness!(c01_arg_i16_vari_n2u0, 2, 0, TypeInfoKind::Signed(TypeLength::BitL
 vari_harness!(c01_arg_f32_vari_n0u1, 0, 1, TypeInfoKind::Float(FloatWidth::Width32), Value::F32(kani::any()), None);
 vari_harness!(c01_arg_ufix32_vari_n1u1, 1, 1, TypeInfoKind::UnsignedFixedPoint(FloatWidth::Width32), Value::U32(kani::any()), Some(any_fixed_point(FloatWidth::Width32)));
 
+/// variable info with NON-ASCII text: name = one 2-byte UTF-8 character, unit = one 3-byte
+/// character (every code point of those lengths); the announced lengths are byte lengths
+#[kani::proof]
+#[kani::stub(alloc::fmt::format, fmt_stub)]
+#[kani::unwind(28)]
+fn c01_arg_u32_vari_mb() {
+    let a = Argument {
+        type_info: type_info(TypeInfoKind::Unsigned(TypeLength::BitLength32), true, false),
+        name: Some(text_exact_mb::<2>()),
+        unit: Some(text_exact_mb::<3>()),
+        fixed_point: None,
+        value: Value::U32(kani::any()),
+    };
+    check_arg_roundtrip(&a, kani::any());
+}
+
 // ---------------------------------------------------------------------------------------------
 // whole messages (shapes)
 // ---------------------------------------------------------------------------------------------
